@@ -3,9 +3,9 @@ CONSTANTS
   DefFile = 420
   DefDir = 493
   MaxEntries = 2
-  MaxComps = 2
-  Diverge = FALSE
-  NameSet = "full"
+  MaxComps = 3
+  Diverge = TRUE
+  NameSet = "small"
 SPECIFICATION Spec
 INVARIANT OutsideUntouched
 INVARIANT UnsafeFails
